@@ -338,8 +338,16 @@ def check_handle_yield(ck):
     pm = q.parent_map(hy.node)
     for nd, c in conv:
         h = q.protected_by(pm, c, "BadYieldError")
-        ok = h is not None and any(q.is_call(x, "future_set_exc_info") and x.args and q.dotted(x.args[0]) == FUT for st in h.body for x in ast.walk(st))
-        ck.ob("C37.handle-yield", hy, c, ok, "a bad yield becomes a failed future (so it is raised inside the coroutine, like awaiting a non-awaitable)")
+        if h is None:
+            ck.ob("C37.handle-yield", hy, c, False, "BadYieldError from convert_yielded is caught in handle_yield (a bad yield is raised inside the coroutine, not in the runner)")
+            continue
+        fails = [x for st in h.body for x in ast.walk(st) if q.is_call(x, "future_set_exc_info", "future_set_exception_unless_cancelled") and x.args]
+        reraises = any(isinstance(x, ast.Raise) for st in h.body for x in ast.walk(st))
+        if not fails and not reraises:
+            raise AnalysisError("%s: BadYieldError handler in an unrecognised shape" % hy.site(h))
+        # the failed future becomes self.future: set on it directly, or on a local that is then stored into it
+        flows = any(q.dotted(x.args[0]) == FUT or (isinstance(x.args[0], ast.Name) and any(isinstance(st, ast.Assign) and q.dotted(st.targets[0]) == FUT and q.dotted(st.value) == x.args[0].id for st in own_walk(hy.node))) for x in fails)
+        ck.ob("C37.handle-yield", hy, c, bool(fails) and flows and not reraises, "a bad yield becomes a failed future (so it is raised inside the coroutine, like awaiting a non-awaitable)")
     # Runner.__init__: run starts immediately only when handle_yield said so
     init = ck.func(G, "Runner.__init__")
     ifacts = must_facts(init.cfg)
